@@ -219,6 +219,18 @@ func runGolden(w *bufio.Writer, id int, seed int64, dir string) (fails int) {
 	for _, l := range []string{"reopen", "count", "all", "dump", "fs"} {
 		e.Step(l)
 	}
+	// the application starts as it always did: Create with the schema the directory was written with (model-free:
+	// the pinned release accepted this very call on this very directory)
+	e.Step("create")
+	for _, l := range e.obs {
+		if strings.HasPrefix(l, "r ") && l != "r ok" {
+			e.spec.fails++
+			fmt.Fprintf(w, "! C18 Create with the schema a directory was written with by the pinned release is refused by the current code on that directory: %s\n", l)
+		}
+	}
+	for _, l := range []string{"count", "all"} {
+		e.Step(l)
+	}
 	// search sweep: every operator at every stored key of a few fields
 	for k := 0; k < 12; k++ {
 		nextSid++
@@ -410,6 +422,7 @@ func main() {
 	snake := flag.Bool("snake", false, "C18: print camelToSnake of every string over a small alphabet (hex in, hex out)")
 	snapchild := flag.String("snapchild", "", "internal: judge a copied database directory in this (child) process")
 	snaplower := flag.String("snaplower", "0", "internal: lower-case directory names in the copy")
+	lockprobes := flag.Bool("lockprobes", false, "C09: Drop under load, Drop after a large batch, Close while the storage fails, each under a watchdog")
 	timekeym := flag.Bool("timekey", false, "C02/C13: index keys of time.Time values, AssignIndex back-conversion and comparisons between stored instants, for the model (driver -timekey)")
 	namesm := flag.Bool("names", false, "C18: uuidExt / uuid test of uuidsFromDir on generated entry names, for the model (driver -names)")
 	descrm := flag.Bool("descr", false, "C16/C17: descriptors of run-time struct types, constraint walks and compatibility verdicts, for the model (driver -descr) + oracles")
@@ -471,6 +484,11 @@ func main() {
 		for i := 0; i < *n; i++ {
 			runLin(w, *first+i, *seed*1000003+int64(*first+i))
 		}
+		w.Flush()
+		return
+	}
+	if *lockprobes {
+		runLockProbes(w, *seed, *n)
 		w.Flush()
 		return
 	}
